@@ -28,7 +28,14 @@ def owner(clause):
     return "C09" if clause in C09_CLAUSES else "C08"
 
 
+# C11 ("event fields map faithfully to the attested message") also reports the clause that says a forwarded message does not
+# carry the fields of the event it was made from; every other clause stays with C08 / C09.
+EXTRA_OWNERS = {"reobs-forwarded-altered": {"C11"}}
+
+
 def owned_by(clause, pid):
+    if pid not in ("C08", "C09"):
+        return pid in EXTRA_OWNERS.get(clause, ())
     return clause in SHARED_CLAUSES or owner(clause) == pid
 
 
